@@ -64,10 +64,10 @@ def step_case(ctx, case):
 
 def blocks(tier, seed):
     q = tier == 'quick'
-    nfull, nskel, nchain = (3, 4, 3) if q else (4, 5, 4)
+    nfull, nskel, nchain = (3, 4, 3) if q else (5, 5, 4)
     bl = [
         Block('CTRL_full', lambda s, n: spaces.progs_upto(nfull, 'full', s, n), ctrl_case,
-              'every program of the full control grammar with <= %d nodes' % nfull, nshards=64, backstop=30),
+              'every program of the full control grammar with <= %d nodes' % nfull, nshards=64 if q else 1024, backstop=30),
         Block('CTRL_skel', lambda s, n: spaces.progs_upto(nskel, 'skel', s, n), ctrl_case,
               'every program of the skeleton grammar with <= %d nodes' % nskel, nshards=64, backstop=30),
         Block('CTRL_chain', lambda s, n: itertools.islice(spaces.chain_progs(nchain), s, None, n), ctrl_case,
@@ -88,7 +88,7 @@ def meta(tier, seed):
              'bytes-keyed cache',
         states_meaning='distinct (program bytes, configuration) initial states plus distinct final stacks; transitions = '
                        'instructions / statements executed',
-        bounds={'CTRL_full_nodes': 3 if q else 4, 'CTRL_skel_nodes': 4 if q else 5, 'CTRL_chain_depth': 3 if q else 4,
+        bounds={'CTRL_full_nodes': 3 if q else 5, 'CTRL_skel_nodes': 4 if q else 5, 'CTRL_chain_depth': 3 if q else 4,
                 'STEP_items': len(stepspace.items(tier, seed)), 'STEP_max_depth': 3},
         assumptions=['reference semantics = docs.md + language_spec.md + unit-test-pinned operand orders (ref/refvm.py); whatever the '
                      'documents leave open is "unspecified" and not judged (counted in unspecified_by_oracle)',
